@@ -459,7 +459,14 @@ func (r *run) collect(kids []*child) {
 		default:
 			jc := readJournal(k.jFile)
 			errTail := tail(k.stderr, 3000)
-			if jc != nil && jc.InFlight {
+			if pk, pc := readPending(r.dir, k); pk != "" && jc != nil && jc.InFlight {
+				first := strings.SplitN(strings.TrimSpace(head(k.stderr, 400)), "\n", 2)[0]
+				if strings.HasPrefix(pk, "stack-exhaustion:") && !strings.Contains(head(k.stderr, 4000), "stack") {
+					pk = "fatal:" + pk
+				}
+				r.addViolation(pk, r.prop+".fatal", fmt.Sprintf("child died (exit %d: %s) in announced call %s", k.exit, first, string(pc)),
+					mustJSON(map[string]any{"kind": "crash", "pending": pc}), 1)
+			} else if jc != nil && jc.InFlight {
 				first := strings.SplitN(strings.TrimSpace(head(k.stderr, 400)), "\n", 2)[0]
 				r.addViolation("fatal:"+jc.Fn+":"+shortHash(jc), r.prop+".fatal",
 					fmt.Sprintf("child died (exit %d: %s) while %s(%s) was in flight", k.exit, first, jc.Fn, summarizeArgs(jc)),
@@ -486,6 +493,22 @@ func saveAs(src, dst string) {
 	}
 	os.MkdirAll(filepath.Dir(dst), 0o755)
 	os.WriteFile(dst, b, 0o644)
+}
+
+// readPending returns the key and call a child announced before a risky call (see Ctx.Pending).
+func readPending(dir string, k *child) (string, json.RawMessage) {
+	b, err := os.ReadFile(filepath.Join(dir, fmt.Sprintf("pending-%s-%d", k.phase.Name, k.shard)))
+	if err != nil {
+		return "", nil
+	}
+	var p struct {
+		Key     string          `json:"key"`
+		Pending json.RawMessage `json:"pending"`
+	}
+	if json.Unmarshal(b, &p) != nil {
+		return "", nil
+	}
+	return p.Key, p.Pending
 }
 
 type crash struct {
